@@ -117,6 +117,8 @@ class Sim:
             return n == 1 and len(self.alive) < 12
         if op == "watchall":
             return n == 2
+        if op in ("incmany", "decmany"):
+            return n == 3
         if op in ("ctor_def", "ctor_rawnull"):
             return n == 2 and fresh(w[1])
         if op in ("ctor_copy", "ctor_move"):
@@ -363,6 +365,10 @@ def gen_cases(rng, tier, h):
             cases.append(_gen_seq(rng, rng.randint(6, 45)))
         for _ in range(30 if quick else 300):
             cases.append(_gen_mt(rng, 500 if quick else 2000))
+        if not quick:
+            # more than 2^31 / 2^32 references to one object at the same time (thorough tier: ~1 minute)
+            for n in (2 ** 31 + 5, 2 ** 32 + 3):
+                cases.append(["new", "incmany 0 %d" % n, "ctor_raw b0 0", "ctor_copy b1 b0", "dtor b0", "decmany 0 %d" % n, "dtor b1", "dec 0"])
         for _ in range(4 if quick else 40):
             # simultaneous first acquisitions of an object whose only reference is its creator's
             cases.append(["new", "acq_race 0 %d" % (4000 if quick else 40000), "ctor_raw b0 0", "dec 0", "dtor b0"])
@@ -455,7 +461,8 @@ def regenerate(rep):
     src = re.sub(r"//[^\n]*", "", open(p).read())
     facts = {}
     facts["counter_is_atomic_init_1"] = bool(re.search(
-        r"std::atomic\s*<\s*(long long|long|int64_t|std::int64_t|int|long long int)\s*>\s+refCounter\s*\{\s*1\s*\}\s*;", src))
+        r"std::atomic\s*<\s*(long long|long|int64_t|std::int64_t|long long int|long int)\s*>\s+refCounter\s*\{\s*1\s*\}\s*;", src))
+    # (a 64-bit signed counter: the model counts in unbounded naturals, which 2^63 references cannot exhaust but 2^31 can)
     inc, dec, use = _body(src, "refInc"), _body(src, "refDec"), _body(src, "useCount")
     facts["refInc_single_rmw"] = bool(inc is not None and any(re.fullmatch(r, inc) for r in _INC_OK))
     facts["refDec_single_rmw_delete_at_zero"] = bool(dec is not None and any(re.fullmatch(r, dec) for r in _DEC_OK))
